@@ -54,7 +54,7 @@ def main():
     n_ind = sum(1 for r in rows if not r[0].startswith("legacy_"))
     n_leg = sum(1 for r in rows if r[0].startswith("legacy_"))
     intro = ("%d changes were written by independent sub-agents that saw only the property text and a scratch worktree "
-             "(waves 1-6: `seeded/C??_{1..9}`; the last wave one per property; later waves were told which sites earlier ones had used), plus %d reverse patches of the "
+             "(waves 1-6: `seeded/C??_{1..9}`; the last wave one per property; wave 7: `seeded/C??_10` for C01 C03 C04 C09 C12 C13 C14 C16 C17 C19 C20, all eleven caught at the first run with a concrete input (C04_10 also raises C03, C09_10 also C11, C01_10 also C13); later waves were told which sites earlier ones had used), plus %d reverse patches of the "
              "`fix:` commits (`seeded/legacy_*`). Each was confirmed by the coordinator with `tools/seedtest.py` (patch applies at HEAD, the "
              "crate's own 81 tests still pass - two timing-based store tests flake under machine load -, the demonstration fails with and "
              "passes without the change; Python demonstrations of C18 were run by hand against the rebuilt module) and then run against the "
